@@ -444,6 +444,27 @@ class _Cmp(ast.NodeTransformer):
     def visit_Call(self, n):
         self.generic_visit(n)
         f = access_path(n.func) or ""
+        # f(a, key=v) on a function of the package whose every definition has the same parameter list: the keywords that
+        # continue the positional arguments become positional (one spelling for a call)
+        if n.keywords and all(k.arg is not None for k in n.keywords) and not any(isinstance(a, ast.Starred) for a in n.args):
+            nm_ = n.func.attr if isinstance(n.func, ast.Attribute) else (n.func.id if isinstance(n.func, ast.Name) else None)
+            ps_ = SIGS.get(nm_)
+            if ps_ is not None and len(n.args) < len(ps_):
+                kw = {k.arg: k for k in n.keywords}
+                moved = []
+                for p_ in ps_[len(n.args):]:
+                    if p_ in kw:
+                        moved.append(kw.pop(p_))
+                    else:
+                        break
+                if moved and all(k.arg in ps_ for k in n.keywords):
+                    # evaluation order: keywords are evaluated in their written order; only a prefix that is already in
+                    # parameter order among the written keywords may move without reordering effects, unless the values are call free
+                    written = [k for k in n.keywords if k in moved]
+                    if written == moved or all(_no_call(k.value) for k in n.keywords):
+                        n.args = list(n.args) + [k.value for k in moved]
+                        n.keywords = [k for k in n.keywords if k not in moved]
+                        STATS["kw_pos"] = STATS.get("kw_pos", 0) + 1
         # (lambda a, b: E)(x, y) with plain arguments: E[a := x, b := y]
         if isinstance(n.func, ast.Lambda) and not n.keywords and not n.func.args.defaults and not n.func.args.vararg and not n.func.args.kwarg \
                 and not n.func.args.kwonlyargs and len(n.args) == len(n.func.args.args) and all(_no_call(a) and not isinstance(a, ast.Starred) for a in n.args) \
@@ -1243,7 +1264,8 @@ def _is_log_stmt(st):
                 fn_ = n.func
                 if isinstance(fn_, ast.Name) and fn_.id in _PURE_IN_LOG:
                     continue
-                if isinstance(fn_, ast.Attribute) and fn_.attr in ("format", "join", "__name__", "total_seconds") :
+                if isinstance(fn_, ast.Attribute) and fn_.attr in ("format", "join", "__name__", "total_seconds", "get", "keys", "values", "items", "upper", "lower",
+                                                                    "strip", "count", "index", "isEnabledFor", "getEffectiveLevel"):
                     continue
                 if (access_path(fn_) or "") in ("time.time", "time.perf_counter", "time.monotonic", "sys.exc_info"):
                     continue
@@ -1907,6 +1929,37 @@ def module_constants(tree):
         elif v is not None and _literal_list(v) and stores.get(nm, 0) == 1 and nm not in touched:
             out[nm] = v          # a table that is only ever read
     return out
+
+
+SIGS = {}            # function / method / class name -> positional parameter names (without self), when every definition of
+                     # that name in the package has the same list (filled by the loader)
+
+
+def signatures(trees):
+    sigs, clash = {}, set()
+
+    def add(name, fn, drop_first):
+        a = fn.args
+        if a.vararg or a.kwarg or a.posonlyargs:
+            clash.add(name)
+            return
+        ps = [x.arg for x in a.args][1 if drop_first else 0:]
+        if name in sigs and sigs[name] != ps:
+            clash.add(name)
+        sigs.setdefault(name, ps)
+    for tree in trees:
+        for st in tree.body:
+            if isinstance(st, ast.FunctionDef):
+                add(st.name, st, False)
+            elif isinstance(st, ast.ClassDef):
+                for m in st.body:
+                    if isinstance(m, ast.FunctionDef):
+                        static = any(isinstance(d, ast.Name) and d.id == "staticmethod" for d in m.decorator_list)
+                        if m.name == "__init__":
+                            add(st.name, m, True)
+                        elif not (m.name.startswith("__") and m.name.endswith("__")):
+                            add(m.name, m, not static)
+    return {k: v for k, v in sigs.items() if k not in clash}
 
 
 PKG_CONSTS = {}      # module name -> its literal constants (filled by the loader for `from .m import NAME`)
